@@ -7,7 +7,8 @@ VARIABLES key, st, env, past, lastin
 vars == <<key, st, env, past, lastin>>
 K(p, d, a, s) == [pins |-> p, dw |-> d, aw |-> a, stages |-> s]
 Keys == IF Fam = "quick" THEN {K(1, 1, 3, 0), K(1, 1, 3, 2), K(1, 2, 3, 1)}
-        ELSE {K(1, 1, 3, s) : s \in 0..3} \cup {K(1, 2, 3, s) : s \in 0..2} \cup {K(2, 4, 2, 1), K(2, 2, 4, 1)}
+        ELSE IF Fam = "thorough" THEN {K(1, 1, 3, s) : s \in 0..3} \cup {K(1, 2, 3, s) : s \in 0..2}
+        ELSE {K(2, 4, 2, 1), K(2, 2, 3, 1)}     \* "pins2": explored by -simulate only
 \* the full configuration is computed once per key (the layout is a recursive fold) and carried in `key`
 GLay(k) == GpLayout([aw |-> k.aw, dw |-> k.dw, pins |-> k.pins])
 Full(k) == [pins |-> k.pins, dw |-> k.dw, aw |-> k.aw, stages |-> k.stages,
